@@ -302,8 +302,15 @@ func (a *Agent) ListKeys() (*serf.KeyResponse, error) {
 }
 
 // SetTags is used to update the tags. The agent will make sure to
-// persist tags if necessary before gossiping to the cluster.
+// persist the tags if necessary once Serf has accepted them.
 func (a *Agent) SetTags(tags map[string]string) error {
+	// Set the tags in Serf, start gossiping out. Serf rejects tags that do
+	// not fit the metadata limit; those must not reach the tags file, or the
+	// next start would load tags that were never in effect.
+	if err := a.serf.SetTags(tags); err != nil {
+		return err
+	}
+
 	// Update the tags file if we have one
 	if a.agentConf.TagsFile != "" {
 		if err := a.writeTagsFile(tags); err != nil {
@@ -311,9 +318,7 @@ func (a *Agent) SetTags(tags map[string]string) error {
 			return err
 		}
 	}
-
-	// Set the tags in Serf, start gossiping out
-	return a.serf.SetTags(tags)
+	return nil
 }
 
 // loadTagsFile will load agent tags out of a file and set them in the
